@@ -155,7 +155,22 @@ pub fn show_results_ordered(rs: &[(String, CovResult)]) -> String {
 // Panic capture
 static LAST_PANIC: Mutex<Option<String>> = Mutex::new(None);
 
+struct NullLogger;
+impl log::Log for NullLogger {
+    fn enabled(&self, _: &log::Metadata) -> bool {
+        true
+    }
+    fn log(&self, r: &log::Record) {
+        // format the arguments like a real logger would (their evaluation can panic)
+        let _ = format!("{}", r.args());
+    }
+    fn flush(&self) {}
+}
+static NULL_LOGGER: NullLogger = NullLogger;
+
 pub fn install_panic_hook() {
+    let _ = log::set_logger(&NULL_LOGGER);
+    log::set_max_level(log::LevelFilter::Trace);
     std::panic::set_hook(Box::new(|info| {
         let loc = info
             .location()
@@ -194,6 +209,20 @@ pub fn gmodel_path() -> PathBuf {
 
 /// Send all request lines through the compiled Lean driver; one answer per request.
 pub fn run_model(requests: &[String], workdir: &Path, tag: &str) -> Vec<String> {
+    run_model_exe(&gmodel_path(), requests, workdir, tag)
+}
+
+/// same, through a component driver `gm_<name>` (lean/lakefile.toml)
+pub fn run_model_named(exe: &str, requests: &[String], workdir: &Path, tag: &str) -> Vec<String> {
+    run_model_exe(
+        &PathBuf::from(format!("/verif/lean/.lake/build/bin/{}", exe)),
+        requests,
+        workdir,
+        tag,
+    )
+}
+
+pub fn run_model_exe(exe: &Path, requests: &[String], workdir: &Path, tag: &str) -> Vec<String> {
     let req_path = workdir.join(format!("{}.req", tag));
     {
         let mut f = std::io::BufWriter::new(std::fs::File::create(&req_path).unwrap());
@@ -202,12 +231,12 @@ pub fn run_model(requests: &[String], workdir: &Path, tag: &str) -> Vec<String> 
             writeln!(f, "{}", r).unwrap();
         }
     }
-    let out = Command::new(gmodel_path())
+    let out = Command::new(exe)
         .stdin(Stdio::from(std::fs::File::open(&req_path).unwrap()))
         .stdout(Stdio::piped())
         .stderr(Stdio::inherit())
         .output()
-        .expect("cannot run gmodel (lake build gmodel first)");
+        .expect("cannot run the Lean model driver (lake build it first)");
     if !out.status.success() {
         eprintln!("gmodel exited with {:?}", out.status);
         std::process::exit(2);
